@@ -87,6 +87,8 @@ def main():
                 else:
                     both = all(x["exit"] == 1 for x in entry["runs"] if x["prop"] == props[0])
                     entry["status"] = ("caught (both seeds)" if both else "caught (one seed)") if caught else "MISSED"
+                    if not caught and meta.get("status_on_current_head", "").startswith("neutralised"):
+                        entry["status"] = "silent, as recorded: " + meta["status_on_current_head"][:90]
                 report[sid] = entry
                 print(f"{sid:18s} {','.join(props):12s} {entry['status']}", flush=True)
             finally:
